@@ -23,3 +23,12 @@ package cbor
 
 //@ func castCidToBytes
 //@   ensures true
+
+//@ func NonceRefForEntry
+//@   requires validEntry(entry)
+//@   ensures fresh(result)
+
+//@ func (*IOCbor).PreSign
+//@   requires validIO(i) && validEntry(entry)
+//@   ensures [presign-returns-a-usable-entry] err == nil ==> validEntry(result0)
+//@   ensures [presign-does-not-touch-its-argument] err == nil ==> result0 == entry || fresh(result0)
